@@ -1,0 +1,45 @@
+//go:build verif
+// +build verif
+
+package hdkeychain
+
+// Read-only accessors for the verification harness (/verif, property C14).
+// Compiled only with the build tag "verif"; nothing here changes behaviour.
+
+// VerifFields is a copy of the unexported fields of an ExtendedKey, exactly as
+// the key stores them (Key is the raw stored slice, not padded).
+type VerifFields struct {
+	Key       []byte
+	ChainCode []byte
+	ParentFP  []byte
+	Version   []byte
+	Depth     uint8
+	ChildNum  uint32
+	IsPrivate bool
+}
+
+func verifDup(b []byte) []byte {
+	if b == nil {
+		return nil
+	}
+	return append([]byte{}, b...)
+}
+
+// VerifFields returns copies of the stored fields.
+func (k *ExtendedKey) VerifFields() VerifFields {
+	return VerifFields{
+		Key:       verifDup(k.key),
+		ChainCode: verifDup(k.chainCode),
+		ParentFP:  verifDup(k.parentFP),
+		Version:   verifDup(k.version),
+		Depth:     k.depth,
+		ChildNum:  k.childNum,
+		IsPrivate: k.isPrivate,
+	}
+}
+
+// VerifMasterKey returns a copy of the HMAC key used by NewMaster.
+func VerifMasterKey() []byte { return verifDup(masterKey) }
+
+// VerifSerializedKeyLen is the payload length NewKeyFromString expects (without checksum).
+const VerifSerializedKeyLen = serializedKeyLen
